@@ -311,3 +311,50 @@ mutant("c10-error-cached", "C10", "_lrucache.py",
        "            self.__misses += 1\n            result = await self.__wrapped__(*args, **kwargs)\n            # function finished early for another call with the same arguments\n            # the cache has been updated already, do nothing to it\n            if key not in self.__cache:\n                self.__cache[key] = result\n            return result\n",
        "            self.__misses += 1\n            try:\n                result = await self.__wrapped__(*args, **kwargs)\n            except Exception as exc:\n                result = exc\n            if key not in self.__cache:\n                self.__cache[key] = result\n            return result\n",
        rule="R10.6")
+
+# --------------------------------------------------------------------------- C14
+mutant("c14-unfix-no-pop", "C14", "contextlib.py",
+       "        while self._exit_callbacks:\n            callback = self._exit_callbacks.pop()\n            try:\n",
+       "        for callback in reversed(self._exit_callbacks):\n            try:\n",
+       rule="R14.3", unit="contextlib.ExitStack.__aexit__")
+mutant("c14-fifo-unwind", "C14", "contextlib.py",
+       "            callback = self._exit_callbacks.pop()\n", "            callback = self._exit_callbacks.popleft()\n",
+       rule="R14.2")
+mutant("c14-push-appendleft", "C14", "contextlib.py",
+       "        self._exit_callbacks.append(aexit)  # pyright: ignore[reportUnknownArgumentType]\n        return exit\n",
+       "        self._exit_callbacks.appendleft(aexit)  # pyright: ignore[reportUnknownArgumentType]\n        return exit\n",
+       rule="R14.1")
+mutant("c14-except-exception", "C14", "contextlib.py",
+       "            except BaseException as exc:  # noqa: B036\n", "            except Exception as exc:  # noqa: B036\n",
+       rule="R14.2")
+mutant("c14-triple-not-reset", "C14", "contextlib.py",
+       "                    reraise_exc = False\n                    exc_type = exc_val = tb = None\n",
+       "                    reraise_exc = False\n", rule="R14.2")
+mutant("c14-stale-exception-passed", "C14", "contextlib.py",
+       "                exc_type, exc_val, tb = type(exc), exc, exc.__traceback__\n",
+       "                exc_type, tb = type(exc), exc.__traceback__\n", rule="R14.2")
+mutant("c14-abort-on-raise", "C14", "contextlib.py",
+       "                reraise_exc = True\n                exc_type, exc_val, tb = type(exc), exc, exc.__traceback__\n",
+       "                reraise_exc = True\n                exc_type, exc_val, tb = type(exc), exc, exc.__traceback__\n                break\n",
+       rule="R14.2")
+mutant("c14-return-suppress-without-received", "C14", "contextlib.py",
+       "        return received_exc and suppress_exc\n", "        return received_exc\n", rule="R14.2")
+mutant("c14-register-before-enter", "C14", "contextlib.py",
+       "        else:\n            context_value = await cm.__aenter__()  # type: ignore\n        self._exit_callbacks.append(aexit)  # pyright: ignore[reportUnknownArgumentType]\n",
+       "        else:\n            self._exit_callbacks.append(aexit)\n            context_value = await cm.__aenter__()  # type: ignore\n            return context_value\n        self._exit_callbacks.append(aexit)  # pyright: ignore[reportUnknownArgumentType]\n",
+       rule="R14.4", unit="contextlib.ExitStack.enter_context")
+mutant("c14-callback-can-suppress", "C14", "contextlib.py",
+       "        await callback()\n        return False  # callbacks never suppress exceptions\n",
+       "        return await callback()\n", rule="R14.5")
+mutant("c14-callback-drops-kwargs", "C14", "contextlib.py",
+       "partial(self._aexit_callback, partial(awaitify(callback), *args, **kwargs))",
+       "partial(self._aexit_callback, partial(awaitify(callback), *args))", rule="R14.5")
+mutant("c14-pop-all-copies", "C14", "contextlib.py",
+       "        new_stack._exit_callbacks, self._exit_callbacks = self._exit_callbacks, deque()\n",
+       "        new_stack._exit_callbacks = deque(self._exit_callbacks)\n", rule="R14.6")
+mutant("c14-pop-all-shares", "C14", "contextlib.py",
+       "        new_stack._exit_callbacks, self._exit_callbacks = self._exit_callbacks, deque()\n",
+       "        new_stack._exit_callbacks = self._exit_callbacks\n", rule="R14.6")
+neutral("c14-unwind-swap-then-iterate", ["C14", "C06", "C17", "C18"], "contextlib.py",
+        "        while self._exit_callbacks:\n            callback = self._exit_callbacks.pop()\n            try:\n",
+        "        callbacks, self._exit_callbacks = self._exit_callbacks, deque()\n        for callback in reversed(callbacks):\n            try:\n")
